@@ -29,6 +29,7 @@ Proof.
   replace ((fc * 4 + N.of_nat k) / 4) with fc by lia.
   replace ((fc * 4 + N.of_nat k) mod 4) with (N.of_nat k) by lia.
   rewrite Nat2N.id.
+  rewrite shorter_spec.
   assert (Hlen : (length (be k n ++ rest) <? k)%nat = false).
   { apply Nat.ltb_ge. rewrite app_length, be_length. lia. }
   rewrite Hlen.
